@@ -434,6 +434,10 @@ M("C19", "lossy-clear-returns-early-when-table-empty", (LC, "    pub fn clear(&m
 B("C19", "lossy-clear-returns-early-when-fresh", (LC, "    pub fn clear(&mut self) {\n        self.known = HashMap::new();", "    pub fn clear(&mut self) {\n        if self.known.is_empty() && self.n == 0 {\n            return;\n        }\n        self.known = HashMap::new();"))
 B("C16", "n-samples-saturating", (TD, "self.n_samples += 1;", "self.n_samples = self.n_samples.saturating_add(1);"))
 
+_BF_A = "    /// Get `k` (number of hash functions).\n"
+B("C01", "new-api-bloom-set-positions-directly", (BF, _BF_A, "    /// Mark the given bit positions.\n    pub fn mark(&mut self, positions: &[usize]) {\n        for pos in positions {\n            self.bs.put(*pos % self.bs.len());\n        }\n    }\n\n" + _BF_A))
+M("C01", "new-api-bloom-clear-a-bit", (BF, _BF_A, "    /// Unmark the given bit position.\n    pub fn unmark(&mut self, pos: usize) {\n        self.bs.set(pos % self.bs.len(), false);\n    }\n\n" + _BF_A), "R01-new-writers", "unmark")
+
 
 def main():
     out = os.path.join(os.path.dirname(os.path.abspath(__file__)), "corpus.json")
